@@ -89,6 +89,51 @@ func gen(t *rapid.T) Case {
 		} else {
 			c.Pt = vkit.MkP(hg.Draw(t, "px"), hg.Draw(t, "py"))
 		}
+		if rapid.IntRange(0, 5).Draw(t, "onedge") == 0 {
+			// round 13: the query point at a lattice point in the INTERIOR of a drawn edge (closing edges included), at a
+			// fraction k/n of it, n up to 64 quarter units: on the edge exactly, at fractions that are not dyadic
+			// (the polygons are first stretched by a small odd factor, so that edges span 22, 23, 25 ... lattice steps and
+			// not only the powers of two that a grid of +-2^k offers)
+			f := float64(rapid.SampledFrom([]int{1, 3, 5, 7, 11, 13, 23, 25}).Draw(t, "onedgef"))
+			for _, pg := range c.Polys {
+				for _, r := range pg {
+					for i := range r {
+						r[i] = vkit.MkP(float64(r[i][0])*f, float64(r[i][1])*f)
+					}
+				}
+			}
+			var edges [][2]vkit.P2
+			for _, pg := range c.Polys {
+				for _, r := range pg {
+					for i := 0; i+1 < len(r); i++ {
+						edges = append(edges, [2]vkit.P2{r[i], r[i+1]})
+					}
+					if len(r) >= 3 {
+						edges = append(edges, [2]vkit.P2{r[len(r)-1], r[0]})
+					}
+				}
+			}
+			if len(edges) > 0 {
+				e := edges[rapid.IntRange(0, len(edges)-1).Draw(t, "onedgee")]
+				q := func(f vkit.F) int { return int(math.Round(4 * float64(f))) }
+				ax, ay := q(e[0][0]), q(e[0][1])
+				dx, dy := q(e[1][0])-ax, q(e[1][1])-ay
+				g, h := dx, dy
+				if g < 0 {
+					g = -g
+				}
+				if h < 0 {
+					h = -h
+				}
+				for h != 0 {
+					g, h = h, g%h
+				}
+				if g >= 2 {
+					k := rapid.IntRange(1, g-1).Draw(t, "onedgek")
+					c.Pt = vkit.MkP(float64(ax+k*(dx/g))/4, float64(ay+k*(dy/g))/4)
+				}
+			}
+		}
 		if c.Kind == "recv" {
 			g := vkit.GenGJ(t, vkit.GeomOpts{Types: []string{"MultiPoint", "LineString", "MultiLineString", "Polygon"},
 				MinMembers: 0, MaxMembers: 3, MaxPts: 5, Coord: hg, ExactGrid: true})
@@ -400,7 +445,7 @@ func TestProp(t *testing.T) {
 			" Round 10: receivers built with vkit.SharedGeom (point lists out of order and with gaps in one array, checked for changes)." +
 			" Round 11: one receiver in four has 15-257 vertices (16, 32, 48, 64, 96, 128, 192, 256 plus or minus one), all Inside or OnEdge except - two cases in three - one vertex at a drawn index." +
 			" Round 12: in one receiver case in six the receiver is a member of the multi-polygon argument itself (same memory)." +
-			" Round 13: one polygon in ten has 4 to 20 rings.",
+			" Round 13: one polygon in ten has 4 to 20 rings; one grid case in six puts the query point on a lattice point inside a drawn edge (fractions k/n of the edge, n up to 64).",
 		Assumptions: []string{"coordinates k/4 with |k|<=33 make all cross products exact in float64, so the oracle is exact on the grid"},
 		Gen:         gen,
 		Run:         run,
